@@ -27,7 +27,7 @@ F = sys.modules['ZODB.FileStorage.FileStorage']
 ASSUMPTIONS = [
     'base history: T1-like (oids 1,2) plus an object only in the base (3); changes history: updates of 1, a new object '
     '(4), a second update of 1; with depth 2 a further layer on top (update of 2, new object 5)',
-    'layer kinds: mapping or file for base and for changes; blob-capable layers are exercised in C13',
+    'layer kinds: mapping or file for base and for changes; blob-capable base: harness demo_blobs (real scratch directory)',
     'pure-Python BTrees during symbolic execution',
 ]
 
@@ -221,6 +221,81 @@ def _sh(kinds, depths):
     return [dict(base_kind=b, changes_kind=c, depth=d) for b, c in kinds for d in depths]
 
 
+def h_demo_blobs(first: int, stack: bool, wrote: bool, base_kind: str) -> None:
+    """A demo storage (optionally with a pushed layer) over a blob-capable base that holds a blob: the very first blob
+    read - through a connection, loadBlob or openCommittedBlobFile (solver-chosen), before or after another blob was
+    written through the demo storage - returns the base's bytes; a rewrite through the demo storage is read back and
+    leaves the base's file and history alone."""
+    k = choose(first, 3)
+    with untraced():
+        import transaction
+        import ZODB
+        from ZODB.blob import Blob
+        from zverif.harness.c13 import BlobWorld
+        w = BlobWorld(base_kind)
+        try:
+            w.new(False)
+            w.commit()
+            base = w.s
+            want = w.committed['b1']
+            boid = w.root['b1']._p_oid
+            from ZODB.utils import load_current
+            bserial = load_current(w.s, boid)[1]
+            base_last = base.lastTransaction()
+            base_files, _ = w.blob_files()
+            demo = ZODB.DemoStorage.DemoStorage(base=base)
+            top = demo.push() if stack else demo
+            db = ZODB.DB(top)
+            tm = transaction.TransactionManager()
+            c = db.open(tm)
+            if wrote:
+                nb = Blob()
+                with nb.open('w') as f:
+                    f.write(b'written through the demo storage')
+                c.root()['demo_blob'] = nb
+                tm.commit()
+            try:
+                if k == 0:
+                    with c.root()['b1'].open('r') as f:
+                        got = f.read()
+                elif k == 1:
+                    with open(top.loadBlob(boid, bserial), 'rb') as f:
+                        got = f.read()
+                else:
+                    f = top.openCommittedBlobFile(boid, bserial)
+                    got = f.read()
+                    f.close()
+            except Exception as ex:
+                fail('blob that lives in the base cannot be read through the demo storage', k, type(ex).__name__, str(ex)[:100])
+            check(got == want, 'blob bytes read through the demo storage differ from the base', k)
+            with c.root()['b1'].open('w') as f:
+                f.write(b'rewritten in the demo layer')
+            tm.commit()
+            c2 = db.open(transaction.TransactionManager())
+            with c2.root()['b1'].open('r') as f:
+                check(f.read() == b'rewritten in the demo layer', 'blob rewritten through the demo storage does not read back')
+            if wrote:
+                with c2.root()['demo_blob'].open('r') as f:
+                    check(f.read() == b'written through the demo storage', 'blob created through the demo storage does not read back')
+            check(base.lastTransaction() == base_last, 'the base storage received a transaction')
+            files_now, _ = w.blob_files()
+            check(files_now == base_files, 'blob files of the base changed', sorted(set(files_now) ^ set(base_files)))
+            with open(base.loadBlob(boid, bserial), 'rb') as f:
+                check(f.read() == want, 'blob bytes in the base changed')
+            c.close()
+            c2.close()
+        finally:
+            w.destroy()
+    reached()
+
+
+def h_tid_after_base(c0: int, c1: int, c2: int, c3: int, c4: int, form: int = 0) -> None:
+    """New transaction ids come after everything in the base, whatever the clock says and however the caller spells
+    "no id given" (C04 tid_monotonic on the demo storage)."""
+    from zverif.harness import c04
+    c04.h_tid_monotonic(c0, c1, c2, c3, c4, 'demo', False, form)
+
+
 from zverif.harness.c20 import h_demo as _demo_new_oid  # noqa: E402
 from zverif.harness.c03 import h_store_serial as _store_serial  # noqa: E402  (conflict detection across both layers)
 from zverif.harness.c03 import h_check_current as _check_current  # noqa: E402
@@ -265,6 +340,17 @@ HARNESSES = [
             symbolic='gc setting selector, stack selector (demo over base / pushed on a demo with empty changes / explicit changes storage)', bounds='object graph of 4 objects over 2 layers', oracle='state before the pack',
             code=['DemoStorage.pack', 'MappingStorage.pack (GC sweep)'],
             quick=dict(timeout=60, shards=shards(base_kind=['mapping', 'file'])), thorough=dict(timeout=60, shards=shards(base_kind=['mapping', 'file']))),
+    Harness('demo_blobs', h_demo_blobs,
+            decides='over a blob-capable base holding a blob: the first blob read through the demo storage (connection / loadBlob / '
+                    'openCommittedBlobFile; with or without a pushed layer; before or after a blob was written through it) returns the '
+                    'base\'s bytes; rewriting it through the demo storage reads back and leaves the base\'s files and history alone',
+            symbolic='read route (3), pushed layer, an earlier blob write through the demo storage', bounds='1 blob in the base; real scratch directory',
+            oracle='bytes by construction; directory listing of the base', code=['DemoStorage.loadBlob/openCommittedBlobFile/storeBlob/_blobify/push'],
+            quick=dict(timeout=100, shards=shards(base_kind=['file', 'mapping'])), thorough=dict(timeout=200, shards=shards(base_kind=['file', 'mapping', 'proxy']))),
+    Harness('tid_after_base', h_tid_after_base,
+            decides='transaction ids chosen by a demo storage come after the base\'s last transaction whatever the clock returns (C04 tid_monotonic, demo storage)',
+            symbolic='4 clock readings, spelling of the call (4 forms)', bounds='4 consecutive tpc_begin over base history T1', oracle='strict increase above the base\'s last id',
+            code=['DemoStorage.tpc_begin'], quick=dict(timeout=60), thorough=dict(timeout=120)),
     Harness('base_unchanged', h_base_unchanged,
             decides='commits, aborts, conflicts, undo, pack, id allocation and push/pop through the demo storage leave the base identical',
             symbolic='operation selector (0..6)', bounds='one operation per run', oracle='base iteration + bytes before/after',
